@@ -20,6 +20,7 @@ from simkit.summary import diff
 from workloads import gen
 
 PROP = "C17"
+HISTORY_FAULTS_FIRST = True  # runs with a decoy analysis before them are evaluated first in each job (see evaluate)
 RULE = (
     "one evaluation = one simulated run of one workload (entry point + concrete arguments) under one seeded "
     "deployment/schedule/fault plan, compared with the serial reference of the same workload; distinct = distinct "
@@ -184,31 +185,36 @@ def _decoy(wl):
     return w
 
 
-def _evaluate_after_decoy(args):
-    wl, cfg, dec, ctx = args
-    out, viols = _evaluate(wl, cfg, dec, ctx, after_decoy=True)
-    return out, viols, dec.log
+def _run_after_decoy(args):
+    """In a freshly forked child: the decoy analysis, then the analysis under test with an empty task cache."""
+    from simkit import simpool
+
+    wl, cfg, dec = args
+    run_entry(_decoy(wl), {"num_procs": 1, "callbacks": 0, "np_seed": 4321})
+    out = run_entry(wl, cfg, dec, simpool.TaskCache())
+    return out, dec.log
 
 
 def evaluate(wl, cfg, dec, ctx):
     kind = wl.get("kind")
     if cfg.get("decoy") and ctx.extra.get("decoys", 0) < (3 if kind in ("kk_ext", "kk_de", "lm") else 2) and kind in ("fit", "zhit", "kk_cnls", "bht", "kk_ext", "kk_de", "lm", "mrq"):
         # history fault: own forked process (nothing it leaves behind reaches later runs) and an empty task
-        # cache (results cached by earlier clean runs must not hide its effect); the reference is computed
-        # first, in the clean job process
+        # cache (results cached by earlier clean runs must not hide its effect).  The child is forked BEFORE the
+        # reference is computed (these runs go first in the job, HISTORY_FAULTS_FIRST): a child that inherits
+        # what the library remembers about this very workload is immune to what the decoy leaves behind.
         from simkit import batch
 
         ctx.extra["decoys"] = ctx.extra.get("decoys", 0) + 1
+        out, log = batch._isolated(_run_after_decoy, (wl, cfg, dec), 900.0, arm_watchdog=False)
+        dec.log = log
         ref = ctx.reference(fail=cfg.get("fail") or ())
         if ref.status == "skipped":
             return ref, []
-        out, viols, log = batch._isolated(_evaluate_after_decoy, (wl, cfg, dec, ctx), 900.0, arm_watchdog=False)
-        dec.log = log
-        return out, viols
+        return _evaluate(wl, cfg, dec, ctx, after_decoy=True, out=out)
     return _evaluate(wl, cfg, dec, ctx)
 
 
-def _evaluate(wl, cfg, dec, ctx, after_decoy=False):
+def _evaluate(wl, cfg, dec, ctx, after_decoy=False, out=None):
     from simkit import simpool
 
     kind = wl.get("kind")
@@ -216,13 +222,9 @@ def _evaluate(wl, cfg, dec, ctx, after_decoy=False):
     if ref.status == "skipped":
         return ref, []
     n_pf = len(ctx.cache.purity_failures)
-    decoyed = False
-    cache = ctx.cache
-    if after_decoy:
-        run_entry(_decoy(wl), {"num_procs": 1, "callbacks": 0, "np_seed": 4321})
-        decoyed = True
-        cache = simpool.TaskCache()
-    out = run_entry(wl, cfg, dec, cache)
+    decoyed = bool(after_decoy)
+    if out is None:
+        out = run_entry(wl, cfg, dec, ctx.cache)
     if decoyed and out.status != "skipped":
         out.probes = dict(out.probes or {})
         out.probes["decoy_analysis_before"] = 1
